@@ -213,6 +213,7 @@ func runC05(c *Ctx) {
 	c.Rule("R5.2", 20, "lexeme of every accepting state is the source text (delimiters removed exactly once for delimited tokens)")
 	c.Rule("R5.3", 25, "every evaluation path consumes the lexeme exactly once and takes the token position from that call")
 	c.Rule("R5.4", 8, "scan loop: advance until dead, retract once, evaluate the previous state, skip only layout tokens")
+	c.Rule("R5.5", 1, "the reader's cursors, lexemes and positions (decided when the reader is module code)")
 
 	p := c.Pkg("internal/ebnf/lexer")
 	if p == nil {
@@ -329,10 +330,15 @@ func runC05(c *Ctx) {
 	}
 
 	// the source text reaches the reader unmodified (positions and lexemes refer to the file)
-	if newFn := FuncDecl(p, "", "New"); newFn != nil {
-		checkSourceUnmodified(c, "R5.3", p, newFn)
-	} else {
-		c.Lost("R5.3", "lexer.New")
+	if ri := findReader(c, "R5.3"); ri != nil {
+		checkSourceUnmodified(c, "R5.3", ri)
+		if ri.kind == "mem" {
+			// the reader is module code: its cursors, lexemes and positions are decided, not trusted
+			checkMemReader(c, "R5.5", ri)
+			checkMemReaderPositions(c, "R5.5", ri)
+		} else {
+			c.Pass("R5.5", "the reader is the dependency's Input (trusted, see assumptions)", token.NoPos, "")
+		}
 	}
 
 	// R5.2 / R5.3 per accepting leaf
